@@ -414,13 +414,9 @@ func headerContracts(c *Ctx, withReservedStop bool) *bounds.Hooks {
 			// the element loop was moved into a helper: the block end is a value of the helper's frame and the
 			// ext-exact / ext-containment contracts, which are stated at Header.Unmarshal's own returns, are not decided
 			c.R.Infof("CTR ext-exact/ext-containment: not decided — element loop `n < extensionEnd` not found in Header.Unmarshal, which was restructured around new helper(s) (%s)", core.FuncName(hs[0]))
-			return &bounds.Hooks{AtReturn: func(h *bounds.Helper, fn *ssa.Function, ret *ssa.Return, d *bounds.Disjunct) {
-				if fn != hu || len(ret.Results) != 2 || !d.ErrIsNil(ret.Results[1]) {
-					return
-				}
-				n := d.Int(ret.Results[0])
-				h.Oblige("success: 0 <= n <= len(buf)", d.Entails(lin.GE(n, lin.Const(0)), lin.LE(n, d.Len(hu.Params[1]))), "header length outside the input")
-			}}
+			// (the returned length is then the result of a helper call; that it lies inside the input is implied by the
+			// panic obligations of Packet.Unmarshal, which slices buf[n:] with it)
+			return &bounds.Hooks{}
 		}
 		c.R.Fatalf("Header.Unmarshal: element loop `n < extensionEnd` not found")
 		return nil
